@@ -51,7 +51,14 @@ func c3value(d []byte, name string) (uint64, bool) {
 	if len(d) < 64 {
 		return 0, false
 	}
+	// the observer may look at a file that is still being created or extended: every
+	// read is bounds-checked, and a file that is not complete yet holds no value
+	bad := false
 	rd32 := func(i uint32) uint32 {
+		if uint64(i)+4 > uint64(len(d)) {
+			bad = true
+			return 0
+		}
 		return uint32(d[i]) | uint32(d[i+1])<<8 | uint32(d[i+2])<<16 | uint32(d[i+3])<<24
 	}
 	hdrLen := rd32(28)
@@ -60,11 +67,18 @@ func c3value(d []byte, name string) (uint64, bool) {
 		h = (h ^ uint32(name[i])) * 16777619
 	}
 	h = (h ^ (h >> 16)) % 512
+	if hdrLen > 1<<20 {
+		return 0, false
+	}
 	off := rd32(hdrLen + 4 + 4*h)
-	for n := 0; off != 0 && n < 8; n++ {
+	for n := 0; off != 0 && n < 8 && !bad; n++ {
 		nl := rd32(off+8) & 0xffffff
+		if bad || uint64(off)+16+uint64(nl) > uint64(len(d)) {
+			return 0, false
+		}
 		if string(d[off+16:off+16+nl]) == name {
-			return uint64(rd32(off)) | uint64(rd32(off+4))<<32, true
+			v := uint64(rd32(off)) | uint64(rd32(off+4))<<32
+			return v, !bad
 		}
 		off = rd32(off + 12)
 	}
